@@ -67,8 +67,8 @@ func NewCtx(prog *Program, prop, tier string, seed int64) *Ctx {
 func (c *Ctx) Thorough() bool { return c.Tier == "thorough" }
 
 // Instance counts one rule instance (a site the rule applies to).
-func (c *Ctx) Instance(rule string) { c.instances[rule]++ }
-func (c *Ctx) Instances(rule string, n int) { c.instances[rule] += n }
+func (c *Ctx) Instance(rule string)          { c.instances[rule]++ }
+func (c *Ctx) Instances(rule string, n int)  { c.instances[rule] += n }
 func (c *Ctx) InstanceCount(rule string) int { return c.instances[rule] }
 
 // Floor declares the minimum instance count confirmed by hand; below it the rule has gone blind.
@@ -264,19 +264,19 @@ func (c *Ctx) Finish(start time.Time) int {
 		kl = append(kl, l)
 	}
 	cov := map[string]any{
-		"explanation":       c.Explanation,
-		"obligations":       c.obligations,
-		"discharged":        c.discharged,
-		"rule_instances":    c.instances,
-		"floors":            c.floors,
+		"explanation":        c.Explanation,
+		"obligations":        c.obligations,
+		"discharged":         c.discharged,
+		"rule_instances":     c.instances,
+		"floors":             c.floors,
 		"functions_analysed": len(funcs),
-		"call_sites":        c.callSites,
-		"samples":           samples,
-		"known_findings":    kl,
-		"not_covered":       c.NotCovered,
-		"information":       c.info,
-		"packages_loaded":   len(c.Prog.Pkgs),
-		"exhaustive":        false,
+		"call_sites":         c.callSites,
+		"samples":            samples,
+		"known_findings":     kl,
+		"not_covered":        c.NotCovered,
+		"information":        c.info,
+		"packages_loaded":    len(c.Prog.Pkgs),
+		"exhaustive":         false,
 	}
 	if len(c.canaryWant) > 0 {
 		cw := []string{}
